@@ -139,7 +139,7 @@ def table_check(ctx, golden):
         else:
             if t[0] != 'nested' or t[1] != key or t[10] != '1':
                 dis.append(Disagreement(_stage(ctx), f'rowok:{func}', f'{func} ({key}): the two-level loop as written does not meet the row '
-                                        f'conditions: {o}', {'kind': 'rowok', 'func': func}))
+                                        f'conditions (writes inside allocation and slice, slice inside the allocation, no entry written twice): {o}', {'kind': 'rowok', 'func': func}))
     # golden/loop_budget.json against the table
     codes = budget_codes()
     for key, code in sorted(golden.items()):
